@@ -181,7 +181,7 @@ def main(argv=None):
     ap.add_argument("--tier", default=os.environ.get("VERIF_TIER", "quick"))
     ap.add_argument("--only", default="")
     ap.add_argument("--replay", default="")
-    ap.add_argument("--jobs", type=int, default=int(os.environ.get("VF_JOBS", "14")))
+    ap.add_argument("--jobs", type=int, default=int(os.environ.get("VF_JOBS", "16")))
     ap.add_argument("--no-evidence", action="store_true")
     a = ap.parse_args(argv)
     pid = a.pid.upper()
@@ -210,7 +210,8 @@ def main(argv=None):
         names = set(a.only.split(","))
         obs = [o for o in obs if o.name in names]
     with ThreadPoolExecutor(max_workers=max(1, a.jobs)) as ex:
-        futs = {o.name: ex.submit(_job, modname, o, tier) for o in obs}
+        # longest budgets first: with more obligations than workers the long ones must not queue behind short ones
+        futs = {o.name: ex.submit(_job, modname, o, tier) for o in sorted(obs, key=lambda o: -o.budget(tier))}
         raws = {n: f.result() for n, f in futs.items()}
     recs = [classify(modname, o, raws[o.name], tier) for o in obs]
 
